@@ -41,8 +41,8 @@ pub mod visit;
 pub use ast::*;
 pub use lexer::{block_string_value, lex, LexOptions, SyntaxError, SyntaxErrorKind, Token, TokenKind};
 pub use parser::{
-    parse_document, parse_executable, parse_schema, parse_type, parse_value, parse_with, DocumentKind, ParseOptions,
-    SourceFacts,
+    parse_document, parse_executable, parse_schema, parse_type, parse_value, parse_with, DocumentKind, Leniency,
+    ParseOptions, SourceFacts,
 };
 pub use printer::{normalize_block_flags, print_document, print_quoted_string, print_value};
 pub use schema::{Schema, SchemaError};
